@@ -139,11 +139,23 @@ def isSelf : Ty → Bool
   | .struct n => n == "Self"
   | _ => false
 
-def selfTo (self : Ty) (t : Ty) : Ty := if isSelf t then self else t
-
+mutual
+/-- `typer/toplevel.rs::instantiate_self_ty`: `Self` is replaced wherever it occurs in a trait method signature,
+    also inside tuples, arrays, `Vec`, `Ref`, type applications and function types
+    (`fn pr(Self, int64) -> (Self, int64)`) -/
 def replaceSelf (self : Ty) : Ty → Ty
-  | .func ps r => .func (ps.map (selfTo self)) (selfTo self r)
-  | t => selfTo self t
+  | .struct n => if n == "Self" then self else .struct n
+  | .tuple ts => .tuple (replaceSelfs self ts)
+  | .app t args => .app (replaceSelf self t) (replaceSelfs self args)
+  | .array len e => .array len (replaceSelf self e)
+  | .vec e => .vec (replaceSelf self e)
+  | .ref e => .ref (replaceSelf self e)
+  | .func ps r => .func (replaceSelfs self ps) (replaceSelf self r)
+  | t => t
+def replaceSelfs (self : Ty) : List Ty → List Ty
+  | [] => []
+  | t :: ts => replaceSelf self t :: replaceSelfs self ts
+end
 
 /-- signature of trait method `tr::m` with `Self := self` -/
 def methodTy (S : Sig) (tr m : String) (self : Ty) : Option Ty :=
